@@ -507,8 +507,160 @@ func c13Magnitudes(c *mc.Ctx) {
 	c.Nontrivial()
 }
 
+// c13IntEnc is the binary encoding of v with its minimal magnitude.
+func c13IntEnc(v *big.Int) []byte {
+	t := byte(0x20)
+	if v.Sign() < 0 {
+		t = 0x30
+	}
+	mag := new(big.Int).Abs(v).Bytes()
+	var out []byte
+	if len(mag) < 14 {
+		out = append(out, t|byte(len(mag)))
+	} else {
+		out = append(append(out, t|14), refbin.VarUint(uint64(len(mag)), 0)...)
+	}
+	return append(out, mag...)
+}
+
+// (6) an integer of every byte length 1..20 inside every container form, so that the container's
+// body length runs through 2..24 (13, 14 and 15 are where the length encodings change): the
+// Reader must hand the integer back exactly.
+func c13Containers(c *mc.Ctx) {
+	n := 1 + c.Shard("int-bytes", 20)
+	v := new(big.Int).Add(new(big.Int).Lsh(big.NewInt(1), uint(8*n-1)), big.NewInt(5))
+	if c.Pick("negative", 2) == 1 {
+		v.Neg(v)
+	}
+	enc := c13IntEnc(v)
+	form := c.Pick("container", 6)
+	forms := []string{"list", "sexp", "struct", "sorted struct (D1)", "annotated", "struct in list"}
+	wrap := func(t byte, body []byte) []byte {
+		if len(body) < 14 {
+			return append([]byte{t<<4 | byte(len(body))}, body...)
+		}
+		return append(append([]byte{t<<4 | 14}, refbin.VarUint(uint64(len(body)), 0)...), body...)
+	}
+	var body []byte
+	switch form {
+	case 0:
+		body = wrap(0xB, enc)
+	case 1:
+		body = wrap(0xC, enc)
+	case 2:
+		body = wrap(0xD, append([]byte{0x84}, enc...))
+	case 3:
+		fb := append([]byte{0x84}, enc...)
+		body = append(append([]byte{0xD1}, refbin.VarUint(uint64(len(fb)), 0)...), fb...)
+	case 4:
+		body = wrap(0xE, append([]byte{0x81, 0x84}, enc...))
+	default:
+		body = wrap(0xB, wrap(0xD, append([]byte{0x84}, enc...)))
+	}
+	data := append(append(append([]byte{}, refbin.BVM...), body...), 0x21, 0x07)
+	c.Case(func() string { return fmt.Sprintf("int %v (%d bytes) in %s: %x", v, n, forms[form], data) })
+	c.Class("container/" + forms[form])
+	var got []*big.Int
+	var err error
+	if p := drive.Safe(func() {
+		r := ion.NewReaderBytes(data)
+		var walk func()
+		walk = func() {
+			for r.Next() {
+				if r.Type() == ion.IntType && !r.IsNull() {
+					b, e := r.BigIntValue()
+					if e != nil {
+						err = e
+						return
+					}
+					got = append(got, b)
+				} else if ion.IsContainer(r.Type()) && !r.IsNull() {
+					if e := r.StepIn(); e != nil {
+						err = e
+						return
+					}
+					walk()
+					if e := r.StepOut(); e != nil {
+						err = e
+						return
+					}
+				}
+			}
+		}
+		walk()
+		if err == nil {
+			err = r.Err()
+		}
+	}); p != "" {
+		c.Fail("panic", drive.PanicSite(p), "%s", p)
+		return
+	}
+	c.Step(6)
+	if err != nil {
+		c.Fail("unexpected-error", "container", "reader rejects a valid encoding: %v", err)
+		return
+	}
+	if len(got) != 2 || got[0].Cmp(v) != 0 || got[1].Cmp(big.NewInt(7)) != 0 {
+		c.Fail("value-mismatch", "container:"+forms[form], "integers read %v, want [%v 7]", got, v)
+		return
+	}
+	c.Observe(n, form, v.Sign())
+	c.Nontrivial()
+}
+
+var c13Huge = func() []*big.Int {
+	p := func(k uint, d int64) *big.Int { return new(big.Int).Add(new(big.Int).Lsh(big.NewInt(1), k), big.NewInt(d)) }
+	return []*big.Int{p(495, -1), p(503, 0), p(504, -1), p(504, 0), p(512, 7), p(520, 0x12345600), new(big.Int).Neg(p(600, 0)), p(1024, -1), big.NewInt(3)}
+}()
+
+// (7) every ordered pair of integers around the 64-byte magnitude (where the binary writer keeps
+// payloads by reference), written in ONE batch at top level or in one list, in each writer mode.
+func c13Pairs(c *mc.Ctx) {
+	a := c13Huge[c.Shard("first", len(c13Huge))]
+	b := c13Huge[c.Pick("second", len(c13Huge))]
+	mode := c.Pick("wmode", 3)
+	inList := c.Pick("in-list", 2) == 1
+	vals := []*rm.Value{rm.BigV(a), rm.BigV(b)}
+	if inList {
+		vals = []*rm.Value{rm.ListV(rm.BigV(a), rm.BigV(b))}
+	}
+	c.Case(func() string { return fmt.Sprintf("pair %v, %v inList=%v mode=%s", a, b, inList, modeNames[mode]) })
+	c.Class("pairs/" + modeNames[mode])
+	var buf bytes.Buffer
+	var werr error
+	if p := drive.Safe(func() {
+		werr = drive.WriteStream(newWriter(mode, &buf), vals, &drive.WriteOpts{IntVia: c.Pick("int.via", 2)})
+	}); p != "" {
+		c.Fail("panic", drive.PanicSite(p), "%s", p)
+		return
+	}
+	if werr != nil {
+		c.Fail("unexpected-error", "write", "writing: %v", werr)
+		return
+	}
+	got, calls, rerr, pan := readBack(buf.Bytes(), nil)
+	c.Step(calls)
+	if failPanic(c, pan) {
+		return
+	}
+	if rerr != nil {
+		c.Fail("unexpected-error", "read", "reading back %x…: %v", clipBytes(buf.Bytes(), 40), rerr)
+		return
+	}
+	if df := rm.DiffStreams(vals, got); df != "" {
+		c.Fail("value-mismatch", "pairs:"+modeNames[mode], "wrote %s, read %s: %s", rm.StreamString(vals), rm.StreamString(got), df)
+		return
+	}
+	c.Observe(a.BitLen(), b.BitLen(), mode, inList)
+	c.Nontrivial()
+}
+
 func c13Body(c *mc.Ctx) {
-	switch c.Pick("part", 5) {
+	switch c.Pick("part", 7) {
+	case 5:
+		c13Containers(c)
+	case 6:
+		c13Pairs(c)
 	case 0:
 		c13Ints(c)
 	case 1:
@@ -526,9 +678,9 @@ func init() {
 	mc.Register(&mc.Check{
 		ID:    "C13",
 		Title: "Numbers are never silently truncated, wrapped or rounded",
-		Rule: "five exhaustive parts on the real code: (1) every integer ±(2^k+d), k<=80, |d|<=2 and every integer in [-2^16,2^16] (thorough: [-2^20,2^20]) carried by ion-go text/binary writers through each Writer entry point, by reference binary with 0/1/2 leading zero bytes and by reference hex text: IntSize never too small, Int64Value/IntValue exact or error, BigIntValue exact; " +
+		Rule: "seven exhaustive parts on the real code: (1) every integer ±(2^k+d), k<=80, |d|<=2 and every integer in [-2^16,2^16] (thorough: [-2^20,2^20]) carried by ion-go text/binary writers through each Writer entry point, by reference binary with 0/1/2 leading zero bytes and by reference hex text: IntSize never too small, Int64Value/IntValue exact or error, BigIntValue exact; " +
 			"(2) the full accessor matrix 13 types x null/non-null x 11 accessors x text/binary: nil for own-type null, usage error for other types; (3) floats: sign x all 2048 exponents x 16 (thorough 256) mantissa patterns around the float32 cut: binary output decoded by the independent decoder and by the Reader is bit-identical, text likewise; " +
-			"(4) ion-go's VarUInt/VarInt/Int encoders composed with its own decoders at every 2^k±2 and 0..299; (5) symbol IDs at VarUInt/UInt boundaries up to 2^32 through a placeholder import (last import slot, first local slot, one past the end) as value, annotation and field name. " +
+			"(4) ion-go's VarUInt/VarInt/Int encoders composed with its own decoders at every 2^k±2 and 0..299; (5) symbol IDs at VarUInt/UInt boundaries up to 2^32 through a placeholder import (last import slot, first local slot, one past the end) as value, annotation and field name; (6) an integer of every byte length 1..20, both signs, inside a list / sexp / struct / sorted struct (D1 form) / annotation wrapper / struct in a list, so that the container body length runs through every value 2..24, followed by a sibling: read back exactly; (7) every ordered pair of 9 integers around the 64-byte magnitude (2^495..2^1024) written in one batch, at top level and inside one list, by each writer mode and entry point: both read back exactly. " +
 			"non-trivial = an ion-go result was compared with exact big-integer/bit arithmetic; distinct = distinct (part, case, observation) digests",
 		Bounds:      map[string]string{"quick": "ints: 131,073 small + 790 boundary x 6 carriers; floats 2 x 2048 x 16", "thorough": "ints 2^21+1 small; floats 2 x 2048 x 256"},
 		Assumptions: []string{"IntValue is documented as int32-ranged; for values in (int32, int64] an exact value or an error are both accepted", "math/big, math.Float64bits trusted"},
